@@ -305,6 +305,10 @@ class ExprMixin:
                     return r
         if ops.is_numeric(a) and ops.is_numeric(b):
             return arith(op, a, b)
+        DUNDER = {"+": "__add__", "-": "__sub__", "*": "__mul__", "/": "__truediv__", "**": "__pow__", "MatMult": "__matmul__",
+                  "BitOr": "__or__"}
+        if isinstance(a, SObj) and op in DUNDER and self.src.class_has_method(a.cls, DUNDER[op]):
+            return self.call_method(a, DUNDER[op], [b], {}, node)
         raise Unsupported(f"{self.frame.qualname}:{self.line(node)} operator {op} on {a!r}, {b!r}")
 
     def ev_Compare(self, node):
